@@ -119,7 +119,11 @@ pub struct Upload(pub usize);
 impl Upload {
     /// Get the upload value.
     pub fn value(&self, ctx: &Context<'_>) -> std::io::Result<UploadValue> {
-        ctx.query_env.uploads[self.0].try_clone()
+        ctx.query_env
+            .uploads
+            .get(self.0)
+            .ok_or_else(|| std::io::Error::other("upload does not exist"))?
+            .try_clone()
     }
 }
 
@@ -160,7 +164,10 @@ impl InputType for Upload {
         if let Value::String(s) = &value
             && let Some(filename) = s.strip_prefix(PREFIX)
         {
-            return Ok(Upload(filename.parse::<usize>().unwrap()));
+            return filename
+                .parse::<usize>()
+                .map(Upload)
+                .map_err(|_| InputValueError::custom("invalid upload file index"));
         }
         Err(InputValueError::expected_type(value))
     }
